@@ -141,3 +141,49 @@ func H_C04_ref_ordinals() {
 		}
 	}
 }
+
+// H_C04_shared_map_elements: the same map as two elements of a list (untyped, and a typed list of maps) and as
+// two values of a map: every occurrence comes back as a map with the entries - never as a pointer to one or an
+// internal carrier - and occurrences that were one map are one map again.
+func H_C04_shared_map_elements() {
+	x := vInt32("x")
+	m := map[string]int32{"k": x}
+	switch vChoice("where", 3) {
+	case 0:
+		v := []interface{}{m, "s", m}
+		bs, err := ToBytes(v, nil)
+		vAssert("encode-noerr", err == nil)
+		out, err := ToObject(bs, nil)
+		vAssert("decode-noerr", err == nil)
+		l, ok := out.([]interface{})
+		vAssert("list", ok && len(l) == 3)
+		a, oka := l[0].(map[interface{}]interface{})
+		b, okb := l[2].(map[interface{}]interface{})
+		vAssert("both-are-maps", oka && okb)
+		vAssert("entries", len(a) == 1 && len(b) == 1 && a["k"] == interface{}(x) && b["k"] == interface{}(x))
+		a["probe"] = int32(1)
+		vAssert("same-map", len(b) == 2)
+	case 1:
+		v := []map[string]int32{m, {"j": 2}, m}
+		typMap, nameMap := vExtract(v)
+		bs, err := ToBytes(v, nameMap)
+		vAssert("encode-noerr", err == nil)
+		out, err := ToObject(bs, typMap)
+		vAssert("decode-noerr", err == nil)
+		l, ok := out.([]map[string]int32)
+		vAssert("list", ok && len(l) == 3)
+		vAssert("entries", len(l[0]) == 1 && len(l[2]) == 1 && l[0]["k"] == x && l[2]["k"] == x && l[1]["j"] == 2)
+	case 2:
+		v := map[string]interface{}{"a": m, "b": m}
+		bs, err := ToBytes(v, nil)
+		vAssert("encode-noerr", err == nil)
+		out, err := ToObject(bs, nil)
+		vAssert("decode-noerr", err == nil)
+		g, ok := out.(map[interface{}]interface{})
+		vAssert("map", ok && len(g) == 2)
+		a, oka := g["a"].(map[interface{}]interface{})
+		b, okb := g["b"].(map[interface{}]interface{})
+		vAssert("both-are-maps", oka && okb)
+		vAssert("entries", len(a) == 1 && len(b) == 1 && a["k"] == interface{}(x) && b["k"] == interface{}(x))
+	}
+}
